@@ -26,16 +26,21 @@ ASSUMPTIONS = ["the input list holds pairwise distinct sound events (distinct uu
                "reachability for 7..12 nodes is computed in TLA+ by the validator (closure iterated at most n times)"]
 
 _REC = data.Recording(path="a.wav", duration=1000.0, channels=1, samplerate=8000)
+# the statement quantifies over ANY list of sound events: they need not belong to one recording
+_RECS = [_REC, data.Recording(path="b.wav", duration=500.0, channels=2, samplerate=44100),
+         data.Recording(path="c.wav", duration=10.0, channels=1, samplerate=16000)]
 
 
 def _events(n, variant):
     out = []
     for i in range(n):
-        if variant == 0:      # all different
+        if variant == 0:      # all different, spread over three recordings (neighbouring events on different ones)
             g = data.TimeInterval(coordinates=[float(i), float(i) + 0.5])
+            rec = _RECS[i % 3]
         else:                 # identical up to the uuid
             g = data.TimeInterval(coordinates=[1.0, 2.0])
-        out.append(data.SoundEvent(uuid=uuid.UUID(int=7000 + 100 * variant + i), recording=_REC, geometry=g))
+            rec = _REC
+        out.append(data.SoundEvent(uuid=uuid.UUID(int=7000 + 100 * variant + i), recording=rec, geometry=g))
     return out
 
 
